@@ -94,6 +94,7 @@ func (c *Collection) view(
 		}
 		if staleVal == "updateAfter" {
 			go func() {
+				verifPoint("view.updateAfter.start", c.bucket.name)
 				debug("\t{updating view in background...}")
 				_, _ = c.updateView(ctx, designDoc, viewName)
 				debug("\t{...done updating view in background}")
